@@ -277,6 +277,111 @@ def mode_switches(check, repo, tier, rule="R3", methods=("set_distance_mode", "a
     return n
 
 
+def nested_mode_contexts(check, P, rule="R3"):
+    """Each exit of a mode context manager puts back the mode that was in effect at *its own* entry: a mode
+    context manager or an absolute bypass used inside an open absolute_mode() / relative_mode() block must not
+    disturb what the outer block restores (one shared "previous mode" slot would)."""
+    from ..driver import World
+    from ..interp import AbsRaise, _Return, Frame
+    n = 0
+    node = ast.parse("0").body[0]
+    for cls_name in ("GCodeBuilder", "GCodeCore"):
+        W = World(P, cls_name)
+        I = W.I
+        I.transform_mode = "identity"
+        I.default_fact = lambda k: (False if k.startswith("has:bounds._bounds[") or k.startswith("has:kw") or k == "nonempty:g._hooks" else
+                                    (True if k.startswith("finite:") else ("some" if k.startswith("opt:g._current_axes") or k.startswith("opt:state._current_axes") else None)))
+        pub = W.public_methods()
+
+        def mode_of(I_):
+            return I_.heap[W.ref("g").addr].fields.get("_distance_mode")
+
+        def drive(I_, cm, body):
+            gfr = cm.frame
+            gfr.yield_cb = body
+            depth = len(I_.frames)
+            I_.frames.append(gfr)
+            raised = None
+            try:
+                try:
+                    I_.exec_block(cm.func.node.body, gfr)
+                except _Return:
+                    pass
+                except AbsRaise as e:
+                    raised = e.exc.cls
+            finally:
+                del I_.frames[depth:]
+                gfr.yield_cb = None
+            return raised
+        target = NT("Point", ("x", "y", "z"), tuple(Num(Poly.sym(f"arg.t.{a}")) for a in "xyz"))
+        inners = [("absolute_mode", "cm"), ("relative_mode", "cm"), ("move_absolute", "cmd"), ("rapid_absolute", "cmd")]
+        for start in ("ABSOLUTE", "RELATIVE"):
+            for outer_name in ("absolute_mode", "relative_mode"):
+                for inner_name, kind in inners:
+                    for inner_raises in ((False, True) if kind == "cm" else (False,)):
+                        if pub.get(outer_name) is None or pub.get(inner_name) is None:
+                            continue
+
+                        def setup(I_, start=start):
+                            g = I_.heap[W.ref("g").addr]
+                            g.fields["_distance_mode"] = Member("DistanceMode", start)
+                            try:
+                                I_.heap[W.ref("state").addr].fields["_current_distance_mode"] = Member("DistanceMode", start)
+                            except AnalysisError:
+                                pass
+
+                        def entry(I_, _, outer_name=outer_name, inner_name=inner_name, kind=kind, inner_raises=inner_raises):
+                            seen = {}
+
+                            def outer_body(val):
+                                seen["mid"] = mode_of(I_)
+                                if kind == "cm":
+                                    inner = W.call_entry(I_, pub[inner_name], {})
+
+                                    def inner_body(v2):
+                                        seen["innermost"] = mode_of(I_)
+                                        if inner_raises:
+                                            I_.raise_("BodyError", node, note="inner with-body raises")
+                                    seen["inner_raised"] = drive(I_, inner, inner_body)
+                                else:
+                                    W.call_entry(I_, pub[inner_name], {"point": target})
+                                seen["after_inner"] = mode_of(I_)
+                            outer = W.call_entry(I_, pub[outer_name], {})
+                            drive(I_, outer, outer_body)
+                            return Tup((seen.get("mid", NONE), seen.get("after_inner", NONE), mode_of(I_)))
+                        done = 0
+                        for path in I.explore(setup, entry, max_dev=2, max_paths=400):
+                            n += 1
+                            if path.outcome != "return":
+                                continue
+                            mid, after_inner, final = path.value.items
+                            if mid == NONE or after_inner == NONE:
+                                continue                    # the scripted body was cut short (a rejected move): nothing to compare
+                            done += 1
+                            want_mid = Member("DistanceMode", "ABSOLUTE" if outer_name == "absolute_mode" else "RELATIVE")
+                            label = (f"[{cls_name}] {inner_name}{'() raising' if inner_raises else '()'} inside {outer_name}() entered in {start.lower()} mode")
+                            d = [decisions_text(path)]
+                            # the delivered mode codes must leave the machine where the builder says it is
+                            codes = [c for e in path.trace if is_writer_delivery(e) for c in Statement(e.data["args"][0], e).codes() if c in ("G90", "G91")]
+                            machine = {"G90": "ABSOLUTE", "G91": "RELATIVE"}.get(codes[-1]) if codes else start
+                            if mid != want_mid:
+                                check.violation(rule, f"nested:{outer_name}:body-mode", f"{label}: the outer body runs in {mid!r}, expected {want_mid!r}", d)
+                            elif after_inner != want_mid:
+                                check.violation(rule, f"nested:{outer_name}:{inner_name}:inner-exit",
+                                                f"{label}: after the inner {'block' if kind == 'cm' else 'command'} the builder is in {after_inner!r}; the outer block's mode is {want_mid!r}", d)
+                            elif final != Member("DistanceMode", start):
+                                check.violation(rule, f"nested:{outer_name}:{inner_name}:outer-exit",
+                                                f"{label}: after the outer block the builder is in {final!r}; it was entered in {start.lower()} mode "
+                                                "(each exit must restore the mode of its own entry)", d)
+                            elif machine != start:
+                                check.violation(rule, f"nested:{outer_name}:{inner_name}:machine-mode",
+                                                f"{label}: the delivered mode codes {codes} leave the machine in {machine} mode, the builder reports {start}", d)
+                            else:
+                                check.ok(rule, f"{label}: every exit restores the mode of its own entry")
+                        check.floor(done >= 1, f"C11.{rule}: nested scenario '{inner_name} inside {outer_name}' ({cls_name}, {start}) has no completing path")
+    return n
+
+
 def run(check, repo, tier):
     check.rule("R1", "every shape hands the same curve / length / keyword arguments to parametric (or rejects identically) in both distance modes, for the same absolute waypoints")
     check.rule("R2", "samples and polyline points reach the same machine positions in both modes (real move + RS274 machine model)")
@@ -286,7 +391,7 @@ def run(check, repo, tier):
     L = Lab(P)
     n1 = shape_equivalence(check, L)
     n2 = emission_equivalence(check, P)
-    n3 = mode_switches(check, repo, tier)
+    n3 = mode_switches(check, repo, tier) + nested_mode_contexts(check, P)
     check.analysed = {"program": P.stats(), "shape_paths": n1, "emission_paths": n2, "mode_switch_obligations": n3, "shapes": list(SHAPES) + ["parametric", "polyline"]}
     check.sample({"shape": "arc", "absolute_mode_input": "target = T", "relative_mode_input": "target = T - O", "compared": "x(theta), y(theta), z(theta), length, kwargs"})
     check.coverage["exhaustive"] = True
